@@ -4,6 +4,7 @@ import (
 	"fmt"
 	"math"
 	"math/big"
+	"os"
 
 	"github.com/tuneinsight/lattigo/v6/core/rlwe"
 	"github.com/tuneinsight/lattigo/v6/schemes/ckks"
@@ -477,7 +478,8 @@ func (s *st) binary(op string, a *ent, b *operand, mode string) (res *ent, skipp
 		ex.want = vmap2(a.want, b.e.want, func(x, y cx) cx { return x.mul(y) })
 		ex.B = a.mag*b.e.E + b.e.mag*a.E + a.E*b.e.E
 		if relin && ex.deg == 1 && d0 == 1 && d1 == 1 {
-			ex.B += s.ks[lvl] / f64(ex.scale)
+			ex.added = s.ks[lvl] / f64(ex.scale)
+			ex.B += ex.added
 		}
 		ex.depth++
 	case isScalarKind(b.kind) && !isMul:
@@ -543,6 +545,15 @@ func (s *st) binary(op string, a *ent, b *operand, mode string) (res *ent, skipp
 	default:
 		panic("operand kind " + b.kind)
 	}
+	if isScalarKind(b.kind) && !isMul && mode != "op0" {
+		prior := s.defScale
+		if out.ct != nil {
+			prior = fB(&out.ct.Scale.Value)
+		}
+		if prior.Cmp(s0) != 0 {
+			ex.pred, ex.sigOp = "scalar-operand-receiver-not-op0", "Add,Sub"
+		}
+	}
 	if b.kind == "uint" {
 		ex.pred = "scalar-uint"
 	}
@@ -598,12 +609,12 @@ func (s *st) binary(op string, a *ent, b *operand, mode string) (res *ent, skipp
 	if ok {
 		res = s.judge(ex, got)
 	}
-	s.settle(mode, a, e1, res)
+	s.settle(mode, a, e1, res, ex.pred)
 	return res, false
 }
 
 // settle updates the pool after a call whose receiver was `mode`.
-func (s *st) settle(mode string, a, b *ent, res *ent) {
+func (s *st) settle(mode string, a, b *ent, res *ent, pred string) {
 	switch mode {
 	case "op0":
 		s.replace(a, res)
@@ -614,7 +625,7 @@ func (s *st) settle(mode string, a, b *ent, res *ent) {
 			s.pool = append(s.pool, res)
 		}
 	}
-	if res == nil {
+	if res == nil && pred == "" { // a triaged input class loses its result but does not end the program
 		s.dead = true
 	}
 }
@@ -637,7 +648,7 @@ func (s *st) mulThenAdd(relin bool, a *ent, b *operand, acc *ent) (res *ent, ski
 	}
 	s0, l0, d0 := a.scale(), a.level(), a.deg()
 	sO, lO, dO := acc.scale(), acc.level(), acc.deg()
-	ex := &expect{op: op, logSlots: a.logSlots(), depth: max(a.depth, acc.depth) + 1, uneq: true}
+	ex := &expect{op: op, sigOp: "MulThenAdd,MulRelinThenAdd", logSlots: a.logSlots(), depth: max(a.depth, acc.depth) + 1, uneq: true}
 	elem := b.kind == "ct" || b.kind == "pt"
 	if d0 > 1 || acc == a || (elem && b.e == acc) {
 		return nil, true
@@ -716,6 +727,7 @@ func (s *st) mulThenAdd(relin bool, a *ent, b *operand, acc *ent) (res *ent, ski
 				}
 				ex.scale = fmul(sO, S)
 				prodE = b.abs()*a.E + (a.mag+a.E)*0.7072/f64(S)
+				scaleUpSlack = math.Ldexp(acc.mag+acc.E, 1-int(s.encPrec)) // opOut is multiplied by S read as a scalar
 			}
 			srel = "eq"
 		default:
@@ -762,6 +774,7 @@ func (s *st) mulThenAdd(relin bool, a *ent, b *operand, acc *ent) (res *ent, ski
 			}
 			ex.scale = fmul(sO, S)
 			prodE = vm*a.E + (a.mag+a.E)*s.encErr(S, vm, n0, s.encPrec)
+			scaleUpSlack = math.Ldexp(acc.mag+acc.E, 1-int(s.encPrec))
 			srel = "eq"
 		default:
 			ratio := fquo(sO, s0)
@@ -772,6 +785,11 @@ func (s *st) mulThenAdd(relin bool, a *ent, b *operand, acc *ent) (res *ent, ski
 		if dO > d0 {
 			ex.pred = "opOut-degree-above-op0"
 		}
+	}
+	if acc.logSlots() > ex.logSlots {
+		// documented: the receiver gets the dimensions of op0 (and op1); an accumulator packed with more
+		// slots would be relabelled, which is the caller's business, not a judged outcome
+		return nil, true
 	}
 	ex.want = vmap2(acc.want, prodWant, func(x, y cx) cx { return x.add(y.scl(factor)) })
 	ex.B = acc.E + f64(factor)*prodE + scaleUpSlack
@@ -799,7 +817,7 @@ func (s *st) mulThenAdd(relin bool, a *ent, b *operand, acc *ent) (res *ent, ski
 	if ok {
 		res = s.judge(ex, acc.ct)
 	}
-	s.settle("op0", acc, nil, res)
+	s.settle("op0", acc, nil, res, ex.pred)
 	return res, false
 }
 
@@ -822,7 +840,8 @@ func (s *st) rescale(a *ent, mode string) (res *ent, skipped bool) {
 	if flog2(ex.scale) < 12 {
 		return nil, true
 	}
-	ex.B = a.E + s.rsNoise(a.deg())/f64(ex.scale)
+	ex.added = s.rsNoise(a.deg()) / f64(ex.scale)
+	ex.B = a.E + ex.added
 	out := s.pickOut(mode, a.deg(), l0, l0, a, nil)
 	if out.mode == "new" {
 		out = s.pickOut("fresh", a.deg(), l0, l0, a, nil)
@@ -833,7 +852,7 @@ func (s *st) rescale(a *ent, mode string) (res *ent, skipped bool) {
 	if s.call(ex, func() error { return s.eval.Rescale(a.ct, out.ct) }) {
 		res = s.judge(ex, out.ct)
 	}
-	s.settle(out.mode, a, nil, res)
+	s.settle(out.mode, a, nil, res, ex.pred)
 	return res, false
 }
 
@@ -880,7 +899,7 @@ func (s *st) rescaleTo(a *ent, minScale *big.Float, mode, cls string) (res *ent,
 	if s.call(ex, func() error { return s.eval.RescaleTo(a.ct, rlwe.NewScale(minScale), out.ct) }) {
 		res = s.judge(ex, out.ct)
 	}
-	s.settle(out.mode, a, nil, res)
+	s.settle(out.mode, a, nil, res, ex.pred)
 	return res, false
 }
 
@@ -922,7 +941,7 @@ func (s *st) setScale(a *ent, target *big.Float, cls string) (res *ent, skipped 
 	if s.call(ex, func() error { return s.eval.SetScale(a.ct, rlwe.NewScale(target)) }) {
 		res = s.judge(ex, a.ct)
 	}
-	s.settle("op0", a, nil, res)
+	s.settle("op0", a, nil, res, ex.pred)
 	return res, false
 }
 
@@ -948,7 +967,7 @@ func (s *st) scaleUp(a *ent, k uint64, mode string) (res *ent, skipped bool) {
 	}) {
 		res = s.judge(ex, got)
 	}
-	s.settle(out.mode, a, nil, res)
+	s.settle(out.mode, a, nil, res, ex.pred)
 	return res, false
 }
 
@@ -977,7 +996,7 @@ func (s *st) dropLevel(a *ent, n int, isNew bool) (res *ent, skipped bool) {
 	}) {
 		res = s.judge(ex, got)
 	}
-	s.settle(mode, a, nil, res)
+	s.settle(mode, a, nil, res, ex.pred)
 	return res, false
 }
 
@@ -992,7 +1011,11 @@ func (s *st) relin(a *ent, mode string) (res *ent, skipped bool) {
 	}
 	ex := &expect{op: "Relinearize", logSlots: a.logSlots(), depth: a.depth, uneq: a.uneq, want: a.want, deg: 1, scale: a.scale()}
 	ex.level = min(l0, out.lvl)
-	ex.B = a.E + s.ks[ex.level]/f64(ex.scale)
+	if !s.fits(ex.scale, a.mag+a.E, ex.level) {
+		return nil, true
+	}
+	ex.added = s.ks[ex.level] / f64(ex.scale)
+	ex.B = a.E + ex.added
 	ex.key = s.unaryKey("Relinearize", out.mode, a, "")
 	ex.nontriv = true
 	s.note("Relinearize(%s)->%s", s.nameOf(a), out.mode)
@@ -1007,7 +1030,7 @@ func (s *st) relin(a *ent, mode string) (res *ent, skipped bool) {
 	}) {
 		res = s.judge(ex, got)
 	}
-	s.settle(out.mode, a, nil, res)
+	s.settle(out.mode, a, nil, res, ex.pred)
 	return res, false
 }
 
@@ -1037,7 +1060,11 @@ func (s *st) rotate(a *ent, k int, conj bool, mode string) (res *ent, skipped bo
 	out := s.pickOut(mode, 1, l0, l0, a, nil)
 	ex := &expect{op: op, logSlots: a.logSlots(), depth: a.depth, uneq: a.uneq, deg: 1, scale: a.scale()}
 	ex.level = min(l0, out.lvl)
-	ex.B = a.E + s.ks[ex.level]/f64(ex.scale)
+	if !s.fits(ex.scale, a.mag+a.E, ex.level) {
+		return nil, true
+	}
+	ex.added = s.ks[ex.level] / f64(ex.scale)
+	ex.B = a.E + ex.added
 	if conj {
 		ex.want = vmap(a.want, func(x cx) cx { return x.conj() })
 	} else {
@@ -1064,13 +1091,24 @@ func (s *st) rotate(a *ent, k int, conj bool, mode string) (res *ent, skipped bo
 	}) {
 		res = s.judge(ex, got)
 	}
-	s.settle(out.mode, a, nil, res)
+	s.settle(out.mode, a, nil, res, ex.pred)
 	return res, false
 }
 
 func (s *st) rotateHoisted(a *ent, ks []int) {
 	if a.deg() != 1 {
 		return
+	}
+	{ // distinct rotations only: the result is a map keyed by k
+		seen := map[int]bool{}
+		var u []int
+		for _, k := range ks {
+			if !seen[k] {
+				seen[k] = true
+				u = append(u, k)
+			}
+		}
+		ks = u
 	}
 	var outs map[int]*rlwe.Ciphertext
 	ex0 := &expect{op: "RotateHoisted", key: "RotateHoisted"}
@@ -1137,6 +1175,12 @@ func (s *st) userDecode(e *ent, kind string) {
 			got[i] = cx{fB(v[i][0]), fB(v[i][1])}
 		}
 	}
+	for i := n; i < len(e.want); i++ { // the n-slot view is meaningful only for an n-periodic vector
+		if e.want[i].sub(e.want[i%n]).abs() > 0 {
+			s.c.Count("user_decodes_skipped_nonperiodic", 1)
+			return
+		}
+	}
 	s.c.Eval(1)
 	s.c.Count("user_decodes", 1)
 	s.c.Distinct("Decode|"+kind+"|"+s.slotClass(e.logSlots())+"|"+s.cfg.Fam, true)
@@ -1157,8 +1201,26 @@ func (s *st) userDecode(e *ent, kind string) {
 	}
 	bound := e.E + math.Ldexp(float64(n)*64*(e.mag+e.E+1e-30), -int(prec)) + math.Ldexp(e.mag+e.E, -int(prec)+1)
 	d, at := maxDiff(got, want)
-	if !(d <= bound) {
-		s.c.Violate("C06|Encoder.Decode|wrong-value|"+kind, fmt.Sprintf("slot %d/%d: decoded %v expected %v |diff|=2^%.2f > 2^%.2f (measured full-slot error 2^%.2f) %s prog=%v",
+	if s.cfg.CI {
+		for i := range got {
+			got[i].im = fnew()
+		}
+		d, at = maxDiff(got, want)
+	}
+	if os.Getenv("C06_DEBUG") != "" && !(d <= bound*(1+1e-9)+1e-300) {
+		full := s.decodeFull(e.ct)
+		for j := 0; j < 4 && j < len(full); j++ {
+			fmt.Fprintf(os.Stderr, "userDecode dbg slot %d full=%v want=%v\n", j, full[j], e.want[j])
+		}
+		cf := s.coeffsOf(pt.El())
+		fmt.Fprintf(os.Stderr, "c0=%v cN/2=%v scale=%v lib=%v\n", cf[0], cf[s.N/2], pt.Scale.Value.Text('g', 40), got[0])
+	}
+	if !(d <= bound*(1+1e-9)+1e-300) {
+		sk := kind
+		if s.cfg.CI && s.encPrec > 53 {
+			sk = "conjugate-invariant-ring-arbitrary-precision" // one decoder path, whatever the output kind
+		}
+		s.c.Violate("C06|Encoder.Decode|wrong-value|"+sk, fmt.Sprintf("slot %d/%d: decoded %v expected %v |diff|=2^%.2f > 2^%.2f (measured full-slot error 2^%.2f) %s prog=%v",
 			at, n, got[at], want[at], math.Log2(d), math.Log2(bound), math.Log2(e.E), s.nameOf(e), s.prog), s.witness(&expect{op: "Decode", key: kind}, ""))
 	}
 }
